@@ -465,6 +465,16 @@ class DiscriminatedUnionUnpackerBuilder(AbstractUnpackerBuilder):
                     )
         else:
             with lines.indent(f"for variant in {variants}:"):
+                if spec.builder.is_nailed:
+                    # a method inherited from a parent is the parent's own
+                    # dispatcher, which would end up here again
+                    self._add_build_variant_unpacker(
+                        spec,
+                        lines,
+                        variant_method_name,
+                        variant_method_call,
+                        call_variant=False,
+                    )
                 with lines.indent("try:"):
                     if spec.builder.is_nailed:
                         lines.append(f"return variant.{variant_method_call}")
@@ -473,14 +483,14 @@ class DiscriminatedUnionUnpackerBuilder(AbstractUnpackerBuilder):
                             f"return {spec.attrs_registry_name}"
                             f"[variant].{variant_method_call}"
                         )
-                if spec.builder.is_nailed:
-                    exc_to_catch = "AttributeError"
-                else:
-                    exc_to_catch = "(KeyError, AttributeError)"
-                with lines.indent(f"except {exc_to_catch}:"):
-                    self._add_build_variant_unpacker(
-                        spec, lines, variant_method_name, variant_method_call
-                    )
+                if not spec.builder.is_nailed:
+                    with lines.indent("except (KeyError, AttributeError):"):
+                        self._add_build_variant_unpacker(
+                            spec,
+                            lines,
+                            variant_method_name,
+                            variant_method_call,
+                        )
                 lines.append("except Exception: pass")
             lines.append(
                 f"raise SuitableVariantNotFoundError({variants_type_expr}) "
@@ -507,6 +517,7 @@ class DiscriminatedUnionUnpackerBuilder(AbstractUnpackerBuilder):
         lines: CodeLines,
         variant_method_name: str,
         variant_method_call: str,
+        call_variant: bool = True,
     ) -> None:
         if spec.builder.is_nailed:
             spec.builder.ensure_object_imported(get_class_that_defines_method)
@@ -523,7 +534,7 @@ class DiscriminatedUnionUnpackerBuilder(AbstractUnpackerBuilder):
                     "default_dialect=_default_dialect)"
                     ".add_unpack_method()"
                 )
-                if not self.discriminator.field:
+                if not self.discriminator.field and call_variant:
                     with lines.indent("try:"):
                         lines.append(f"return variant.{variant_method_call}")
                     lines.append("except Exception: pass")
@@ -564,7 +575,11 @@ class SubtypeUnpackerBuilder(DiscriminatedUnionUnpackerBuilder):
     def _get_variants_attr(self, spec: ValueSpec) -> str:
         if self._variants_attr is None:
             assert self.discriminator.include_subtypes
-            self._variants_attr = "__mashumaro_subtype_variants__"
+            # a variant is registered once its unpacker for this format is
+            # built, so each format needs a registry of its own
+            self._variants_attr = (
+                f"__mashumaro_subtype_variants_{spec.builder.format_name}__"
+            )
         return self._variants_attr
 
 
